@@ -40,6 +40,10 @@ Dims == [
                                                \* RootOfTrustToOptions from bundle files / inline PEM / both / an empty file / a non-PEM string
   leafRole |-> <<"pck", "wrongCN", "pckByRoot", "caAsLeaf", "tcbSignByRoot">>,
   leafId   |-> <<"l1", "l2">>,                 \* which of the platform's two PCK leaves the chain carries (both honest)
+  msgWide  |-> <<"none", "version", "akType", "certType", "pckCertType", "authSize", "isvProdId", "isvSvn", "isvSvnPlus65536">>,
+               \* a QuoteV4 *message* whose numeric field exceeds the width the wire format gives it (the low bits are the genuine value): not a quote
+  sigShape |-> <<"any", "quoteshortR", "quoteshortS", "qeReportshortR", "qeReportshortS", "tcbInfoshortR", "tcbInfoshortS",
+                "enclaveIdentityshortR", "enclaveIdentityshortS">>,   \* a raw signature scalar with leading zero bytes (its DER INTEGER is shorter): still a valid signature
   serials  |-> <<"std", "oddHex", "highBit", "tiny">>,   \* shape of every certificate serial: even hex digits / top nibble zero / top bit set (DER pads with 00) / single byte
   interSlot |-> <<"inter", "root", "otherCA">>,           \* certificate carried in the intermediate position of the chain
   src      |-> <<"gen", "intel">>,             \* generated world / the genuine Intel sample quote with its recorded collateral
@@ -120,6 +124,7 @@ Opts == { [gc |-> b.gc, cr |-> b.cr, now |-> n, entry |-> e] :
             b \in OptBase, n \in NowVals, e \in {"raw", "msg"} }
 \* the wall clock cannot realise a time fault
 Realisable(w, o) == /\ (o.now = "unset" => w.time = "none")
+                    /\ (w.msgWide # "none" => o.entry = "msg")   \* bytes cannot carry such a value
                     /\ (w.rotVia # "pool" => w.pool # "empty")   \* a root-of-trust message cannot say "trust nothing"
                     /\ (w.src = "intel" => /\ o.now = "set"                       \* judged at its reference time
                                            /\ \A d \in DimNames \ {"src", "pool", "rotVia"} : w[d] = Baseline[d])
@@ -178,7 +183,7 @@ GoodQe(w)  == w.qeContent \in {"ok", "laterMatch", "maskedDiff", "maskZero"}
 (* must be accepted (completeness), which requests may be made.                         *)
 
 \* C01: every link of the signature chain
-N01(w, o) == /\ w.qsig = "ok" /\ w.ak = "ok" /\ w.mut = "none"
+N01(w, o) == /\ w.qsig = "ok" /\ w.ak = "ok" /\ w.mut = "none" /\ w.msgWide = "none"
              /\ w.bind = "ok" /\ w.qeSigner = "leaf"
 
 \* C02: leaf is a PCK-role certificate that chains through the carried intermediate to the pool
@@ -200,7 +205,8 @@ N03(w, o) == o.gc => /\ DocOk(w, "tcbSigner", "tcbOver", "tcbAlter", "tcbHdr", "
 
 \* C04 / C07: content of the signed documents
 N04(w, o) == o.gc => GoodTcb(w)
-N07(w, o) == o.gc => GoodQe(w)
+\* (the ISVSVN and ISVPRODID that are compared with the identity must be the ones the PCK key signed, not wider values of a message)
+N07(w, o) == o.gc => GoodQe(w) /\ w.msgWide \notin {"isvSvn", "isvSvnPlus65536", "isvProdId"}
 
 \* C05: revocation
 N05(w, o) == o.cr => /\ o.gc
@@ -265,7 +271,8 @@ StageResult(st, w, o) ==
   CASE st = "rot" ->                                         \* RootOfTrustToOptions refuses bundles without certificates
          IF w.rotVia \in {"fileEmpty", "inlineNonPem"} THEN "fail" ELSE "ok"
     [] st = "check" ->
-         IF w.mut = "header" THEN "either" ELSE "ok"        \* a header bit may hit version / key type / TEE type
+         IF w.msgWide # "none" THEN "fail"                  \* CheckQuoteV4: every numeric field must fit its wire width
+         ELSE IF w.mut = "header" THEN "either" ELSE "ok"   \* a header bit may hit version / key type / TEE type
     [] st = "extract" ->
          IF w.nBlocks = "n3" /\ w.trailer \in {"none", "nul"} /\ w.pemType = "cert" THEN "ok" ELSE "fail"
     [] st = "ca" ->                                          \* issuing CA from the leaf's issuer name, needed for the CRL URL
